@@ -11,6 +11,7 @@ from schema import HAND, emit_schema, F_COMMENTS, F_IGNORE_UNKNOWN, F_NOCASE
 FIXTURE_FILES = {
     "inc_ok.conf": "i = 11\n",
     "inc_x.conf": "x = 5\n",
+    "inc_single.conf": "single { x = 3 }\ntm a { }\n",
     "inc_bad.conf": "i = notanumber\n",
     "inc_empty.conf": "",
     "inc_self.conf": "include(inc_self.conf)\n",
